@@ -81,7 +81,9 @@ macro_rules! quat_interp {
         let a_acc: f64 = $aacc;
         let rot = rot_family(if $rep.thorough() { 1 } else { 0 });
         let nsub = if $rep.thorough() { 160 } else { 48 };
-        let sub: Vec<[f64; 4]> = rot.iter().step_by((rot.len() / nsub).max(1)).copied().collect();
+        let mut sub: Vec<[f64; 4]> = rot.iter().step_by((rot.len() / nsub).max(1)).copied().collect();
+        // plus some of the members that sit where implementations branch (near identity / half-turn, tiny axis components)
+        sub.extend(rot_subset(0, 1).into_iter().skip(1).step_by(if $rep.thorough() { 4 } else { 12 }));
         // partners: the sub family itself plus special relatives of the start
         let ns = sub.len() as u64;
         let subr = &sub;
